@@ -17,7 +17,7 @@ are evaluated on checksum-covered byte ranges taken from the files and compared 
 """
 import collections, hashlib, json, os, shutil
 import vlib, histlib, histgen, h5spec
-from props import c05spec
+from props import c05spec, c05walk
 from histlib import ESZ, SIGNED, UNLIMITED, prod, hx
 
 TRUSTED = ["C05: tools/h5spec.py (independent decoder: my reading of the HDF5 File Format Specification 3.0), tools/histlib.py oracle, hist harness glue",
@@ -600,6 +600,7 @@ def run(ctx):
     samples, vectors = [], []
     nfiles = nextents = 0
     structs = []
+    walk_tie = c05walk.WalkTie(ctx)         # whole-file tie: the Coq walker Spec/Walk.v on a sample of the files
     try:
         for c, r in produce(H, cases + vcases):
             j = judge_vlen(c, r) if "datasets" in c else judge_file(c, r)
@@ -617,6 +618,7 @@ def run(ctx):
             else:
                 nsucc = sum(1 for o, x in zip(c["ops"], r["results"]) if x.get("ok") and o["op"] not in ("close", "dump", "reopen"))
             res = j["res"]
+            walk_tie.offer(c, res)
             if nsucc >= 2 and res is not None:
                 nontrivial.add(hashlib.sha256(res["data"]).hexdigest())
             if res is not None:
@@ -697,8 +699,14 @@ def run(ctx):
     else:
         side_ok += 1
     # the Coq specification decoders (Spec/Format*.v) on the structures of the written files and of reference files
-    spec_viol, spec_cov = spec_tie(H, ctx, structs)
+    # ... and, at the same time (separate coqc processes), the Coq whole-file walker on a sample of the complete files
+    import concurrent.futures as _cf
+    with _cf.ThreadPoolExecutor(1) as _ex:
+        _fut = _ex.submit(walk_tie.finish)
+        spec_viol, spec_cov = spec_tie(H, ctx, structs)
+        walk_viol, walk_cov = _fut.result()
     viol += spec_viol
+    viol += walk_viol
     cov = dict(evaluations=nfiles, distinct_nontrivial=len(nontrivial),
                rule="one evaluation = one closed file written by the real library from a generated API history, walked by the independent decoder "
                     "(bounds, disjointness, consistency, decoded tree == oracle, deviation tags within the known list); a file is non-trivial when at least two "
@@ -710,6 +718,7 @@ def run(ctx):
                checksum_vector_algos=dict(collections.Counter(a for a, b, s in vectors)),
                side_obligations=side, side_discharged=side_ok, programs=nfiles, disagreements_checked=nfiles)
     cov.update(spec_cov)
+    cov.update(walk_cov)
     return dict(violations=viol, known=known_lines, coverage=cov)
 
 
